@@ -21,19 +21,25 @@ from ..tlc import MachineryError
 
 SPEC_DIR = tlc.SPEC / "concat"
 ALL_DEV = ["RenameKeepsLabel", "WsRemoveKeepsChild", "HoleRemovalKeepsObjectRows", "HoleRemovalKeepsGroupChild",
-           "StalePgIdCache", "EmptyTableRaises", "TableByLabel"]
+           "StalePgIdCache", "EmptyTableRaises", "TableByLabel",
+           "CopySharesRecords", "PlainChildNotUnlinked", "UngroupedDataNotLoaded", "FailedCreateKeepsKey", "HoleRemovalKeepsEmptyPgRow"]
 # (cfg, format version, number of paths replayed: None = the complete path cover, n = seeded sample)
-EXPORTS = {"quick": [("DrillholeConcatExportFlags.cfg", 21, None), ("DrillholeConcatExportText.cfg", 21, 300),
-                     ("DrillholeConcatExportQuick.cfg", 21, 600), ("DrillholeConcatExportDeep.cfg", 21, 300),
+EXPORTS = {"quick": [("DrillholeConcatExportFlags.cfg", 21, None), ("DrillholeConcatExportRound3.cfg", 21, 350),
+                     ("DrillholeConcatExportText.cfg", 21, 250),
+                     ("DrillholeConcatExportQuick.cfg", 21, 450), ("DrillholeConcatExportDeep.cfg", 21, 250),
                      ("DrillholeConcatExportQuick20.cfg", 20, None)],
-           "thorough": [("DrillholeConcatExportFlags.cfg", 21, None), ("DrillholeConcatExportText.cfg", 21, None),
+           "thorough": [("DrillholeConcatExportFlags.cfg", 21, None), ("DrillholeConcatExportRound3.cfg", 21, None),
+                        ("DrillholeConcatExportText.cfg", 21, None),
                         ("DrillholeConcatExportQuick.cfg", 21, None), ("DrillholeConcatExportDeep.cfg", 21, None),
                         ("DrillholeConcatExportQuick20.cfg", 20, None), ("DrillholeConcatExportThorough20.cfg", 20, 2500),
                         ("DrillholeConcatExportThorough.cfg", 21, 5000), ("DrillholeConcatExportThorough5.cfg", 21, 4000)]}
 IDEAL = {"quick": "DrillholeConcatIdealQuick.cfg", "thorough": "DrillholeConcatIdealThorough.cfg"}
 SINGLE_NEG = {"RenameKeepsLabel": "ReadBackOK", "WsRemoveKeepsChild": "KeysMatchChildren",
               "HoleRemovalKeepsObjectRows": "RowsOwnedLive", "HoleRemovalKeepsGroupChild": "GroupChildrenLive",
-              "StalePgIdCache": "PgCacheFresh", "EmptyTableRaises": "TableOK", "TableByLabel": "TableOK"}
+              "StalePgIdCache": "PgCacheFresh", "EmptyTableRaises": "TableOK", "TableByLabel": "TableOK",
+              "CopySharesRecords": "NeverBroken", "PlainChildNotUnlinked": "PlainChildClean",
+              "UngroupedDataNotLoaded": "RowsOwnedLive", "FailedCreateKeepsKey": "OneRecordEach",
+              "HoleRemovalKeepsEmptyPgRow": "RowsOwnedLive"}
 NEGATIVE = [("DrillholeConcatAsBuilt.cfg", None)]
 JENV = {"JAVA_TOOL_OPTIONS": "-Xss64m"}  # Populate composes ~10 operators: deep lazy evaluation
 
@@ -89,7 +95,7 @@ def _export(cfg_name, devs, workdir):
     if not res.ok:
         raise MachineryError(f"TLC reports {res.violated} on export {cfg_name}\n{res.raw_tail[-1500:]}")
     g = tlc.build_graph(res.lines)
-    init = [k for k, v in g.states.items() if not v["s"]["gch"] and not v["s"]["labels"] and all(h["st"] == "none" for h in v["s"]["hs"]) and v["s"].get("sess", "mixed") == "mixed"]
+    init = [k for k, v in g.states.items() if not v["s"]["gch"] and not v["s"]["labels"] and all(h["st"] == "none" for h in v["s"]["hs"]) and v["s"].get("sess", "mixed") == "mixed" and v["s"].get("plain", "none") in ("none", "live")]
     if len(init) != 1:
         raise MachineryError(f"{cfg_name}: {len(init)} initial states")
     return res, g, init
@@ -110,7 +116,7 @@ def _items(g, init, paths, version):
             tail = {"edge": lab, "state": g.states[d]}
         # refinement parameters of the scene that the specification does not distinguish: the payload kind comes
         # from the cfg (Kind), every second path gives the group a plain (non-concatenated) child as well
-        items.append({"version": version, "kind": steps[0]["state"].get("kind", "float"), "plain_child": len(items) % 2 == 0,
+        items.append({"version": version, "kind": steps[0]["state"].get("kind", "float"), "plain_child": steps[0]["state"]["s"].get("plain", "none") != "none" or len(items) % 2 == 0,
                       "steps": steps, "tail": tail})
     return items
 
@@ -169,7 +175,12 @@ def _probe(work):
     and the probe is repeated with the smaller set.  A mismatch at a step that exhibits no deviation is
     explained by no subset: it is returned as a violation `probe:unexplained:<action>`.
     Returns (deviations to export with, violations)."""
-    devs = set(ALL_DEV)
+    # deviations recorded as *fixed* in known_findings.json are not assumed any more: should one come back, the ideal
+    # behaviour is demanded and the regression is reported as a violation (it also keeps the probe to one round)
+    from .. import findings
+    fixed = {f["signature"].split(":", 1)[1] for f in findings.load()
+             if f.get("property") == "C04" and f.get("status") == "fixed" and str(f.get("signature", "")).startswith("asbuilt:")}
+    devs = set(ALL_DEV) - fixed
     viol = []
     for _ in range(len(ALL_DEV) + 1):
         res, g, init = _export("DrillholeConcatProbe.cfg", sorted(devs), work)
@@ -233,7 +244,8 @@ def run(tier, seed):
         f_ideal = _Bg(IDEAL[tier], max(2, procs // 4))
         # (2) negative controls: the as-built deviations violate the invariants
         f_neg = _Bg("DrillholeConcatAsBuilt.cfg", 2, "2g")
-        bg += [f_ideal, f_neg]
+        f_ideal3 = _Bg("DrillholeConcatIdealRound3.cfg", 2, "2g")
+        bg += [f_ideal, f_neg, f_ideal3]
         f_single = {}
         if tier == "thorough":
             for d in SINGLE_NEG:
@@ -264,6 +276,9 @@ def run(tier, seed):
         ideal = f_ideal.result()
         if not ideal["ok"]:
             raise MachineryError(f"the ideal specification violates {ideal['violated']}\n{ideal['tail']}")
+        ideal3 = f_ideal3.result()
+        if not ideal3["ok"]:
+            raise MachineryError(f"the ideal specification (round-3 actions) violates {ideal3['violated']}\n{ideal3['tail']}")
         neg = f_neg.result()
         if neg["ok"]:
             raise MachineryError("negative control: the as-built deviations violate no invariant")
@@ -280,7 +295,7 @@ def run(tier, seed):
         shutil.rmtree(work, ignore_errors=True)
     need = {"AddHole", "AddDepthData", "AddIntervalData", "SetValues", "Rename", "RemoveDataViaParent", "RemoveDataViaWorkspace",
             "RemoveHoleViaParent", "RemoveHoleViaWorkspace", "RemovePropertyGroup", "AddValuesToTable", "Reopen", "CopyGroup",
-            "Protect"}
+            "Protect", "RemovePlainChild", "CopyEdit", "AddObjectData", "AddBadData", "ReopenRemoveHole"}
     if need - set(acts_seen):
         raise MachineryError(f"actions never replayed: {sorted(need - set(acts_seen))}")
     if replayed_steps < 1000:
